@@ -940,10 +940,19 @@ class Simulation(Structure):
                     self.units = ('AU', 'yr2pi', 'Msun')
                     self.G = 1.0
                 builtindatasets = ["solar system", "outer solar system"]
-                if particle.lower() == "solar system":          # built in test dataset
-                    data.add_solar_system(self)
-                elif particle.lower() == "outer solar system":  # built in test dataset
-                    data.add_outer_solar_system(self)
+                if particle.lower() in builtindatasets:         # built in test datasets, given in AU, yr/2pi, Msun
+                    N0 = self.N
+                    if particle.lower() == "solar system":
+                        data.add_solar_system(self)
+                    else:
+                        G0 = self.G
+                        self.G = 1.0    # add_outer_solar_system scales its velocities with sqrt(sim.G)
+                        data.add_outer_solar_system(self)
+                        self.G = G0
+                    ul, ut, um = hash_to_unit(self.python_unit_l), hash_to_unit(self.python_unit_t), hash_to_unit(self.python_unit_m)
+                    if (ul, ut, um) != ('au', 'yr2pi', 'msun'):
+                        for i in range(N0, self.N):
+                            units_convert_particle(self.particles[i], 'au', 'yr2pi', 'msun', ul, ut, um)
                 else:
                     if "frame" not in kwargs:
                         if hasattr(self, 'default_plane'):
